@@ -1,6 +1,7 @@
 /-
 Model of `/repo/src/impl_/lazy.rs`: `Lazy<A> = Arc<Mutex<LazyData<A>>>`,
-`LazyData = Thunk(closure) | Value(a)`.  A heap of cells (one per `Arc`),
+`LazyData = Thunk(closure) | Value(a)`.  `Expr.val v` is `Lazy::of_value(v)`: the cell holds
+`Value(v)` from the start, there is no thunk.  A heap of cells (one per `Arc`),
 handles (one per `Lazy` value; `clone` shares the cell), `force` = `Lazy::run`
 (memoises the cell and every cell forced on the way).  A thunk built by
 `Cell::map`/`sample_lazy` forces the source lazy taken at construction, so
@@ -12,6 +13,7 @@ namespace SodiumVerif.LazyHeap
 
 inductive Expr where
   | const (v : Int)
+  | val (v : Int)
   | app (f : Int → Int) (src : Nat)
   | app2 (f : Int → Int → Int) (a b : Nat)
 
@@ -29,6 +31,7 @@ def denF : Nat → List Expr → Nat → Int
     match es[i]? with
     | none => 0
     | some (.const v) => v
+    | some (.val v) => v
     | some (.app f s) => if s < i then f (denF fuel es s) else f 0
     | some (.app2 f a b) =>
       if a < i ∧ b < i then f (denF fuel es a) (denF fuel es b) else f 0 0
@@ -61,6 +64,7 @@ def forceC : Nat → List Cell → Nat → List Cell × Int
             let q := forceC fuel r.1 b
             (q.1.set i (memo c (f r.2 q.2)), f r.2 q.2)
           else (hp.set i (memo c (f 0 0)), f 0 0)
+        | .val v => (hp, v)
 
 /-- Handle id ↦ cell index; a dropped handle becomes `none` (ids stay stable). -/
 structure State where
@@ -80,9 +84,15 @@ def lookup (s : State) (h : Nat) : Option Nat :=
   | some (some i) => some i
   | _ => none
 
+/-- Memo state of a fresh cell: `Lazy::of_value(v)` starts as `LazyData::Value(v)` (no thunk, so
+nothing ever runs); `Lazy::new(k)` starts as `LazyData::Thunk(k)`. -/
+def initValue : Expr → Option Int
+  | .val v => some v
+  | _ => none
+
 def step (s : State) : Op → State × Option Int
   | .new e =>
-    ({ heap := s.heap ++ [⟨e, none, 0⟩], handles := s.handles ++ [some s.heap.length] }, none)
+    ({ heap := s.heap ++ [⟨e, initValue e, 0⟩], handles := s.handles ++ [some s.heap.length] }, none)
   | .clone h =>
     match lookup s h with
     | some i => ({ s with handles := s.handles ++ [some i] }, none)
